@@ -308,14 +308,23 @@ def structural_edit(rng, lines):
             return {"range": {"start": {"line": li, "character": m.start()},
                               "end": {"line": li, "character": m.end()}},
                     "text": rng.choice(["", "zz9", m.group(0)[: len(m.group(0)) // 2], m.group(0) + "_x"])}
+    conts = [li for li in range(1, n) if lines[li - 1].rstrip().endswith("&") and re.search(r"[A-Za-z_]\w{2,}", lines[li])]
+    if conts and rng.random() < 0.25:
+        # an in-line edit of a continuation line that makes it shorter (or longer): a name on it is
+        # renamed; the statement's other lines are untouched
+        li = rng.choice(conts)
+        m = rng.choice(list(re.finditer(r"[A-Za-z_]\w{2,}", lines[li])))
+        return {"range": {"start": {"line": li, "character": m.start()}, "end": {"line": li, "character": m.end()}},
+                "text": rng.choice([m.group(0)[:1], m.group(0)[:2], "q", m.group(0) + "_longer_name"])}
     if r < 0.68:
-        # a statement broken behind a name: 'name &' / continuation line (sometimes still empty)
-        cands = [(li, m.end()) for li, ln in enumerate(lines) if "!" not in ln
-                 for m in re.finditer(r"[A-Za-z_]\w*", ln)]
+        # a statement broken behind or in front of a name: '... &' / continuation line (sometimes
+        # still empty), so that declared names end up on continuation lines too
+        cands = [(li, pos) for li, ln in enumerate(lines) if "!" not in ln
+                 for m in re.finditer(r"[A-Za-z_]\w*", ln) for pos in (m.end(), m.start()) if pos > 0]
         if cands:
             li, ch = rng.choice(cands)
             return {"range": {"start": {"line": li, "character": ch}, "end": {"line": li, "character": ch}},
-                    "text": rng.choice(["&\n", " &\n", " &\n    ", "&\n  &"])}
+                    "text": rng.choice(["&\n", " &\n", " &\n    ", "&\n  &", " &\n          "])}
     if r < 0.8:
         from .c03 import KEYWORD_LINES
 
@@ -403,6 +412,34 @@ def gen_sched(g):
                                                              "textDocument/implementation", "textDocument/hover"]),
                                           p, li, ch + 1, rng=rng))
 
+    focus_after = []
+
+    def focus(p, l0, l1):
+        """questions about the names on and around lines l0..l1 of an open document - where they
+        stand there and wherever else the document mentions them (stale positions show near edits)"""
+        lines = docs.get(p)
+        if not lines:
+            return
+        near = range(max(0, l0 - 2), min(len(lines), l1 + 3))
+        names = set()
+        pts = []
+        for li in near:
+            for m in re.finditer(r"[A-Za-z_]\w*", lines[li]):
+                names.add(m.group(0).lower())
+                pts.append((li, m.end()))
+        for li, ln in enumerate(lines):
+            if li in near:
+                continue
+            for m in re.finditer(r"[A-Za-z_]\w*", ln):
+                if m.group(0).lower() in names and len(m.group(0)) > 2:
+                    pts.append((li, m.start() + 1))
+        if len(pts) > 12:
+            pts = rng.sample(pts, 12)
+        for (li, ch) in pts:
+            meth = rng.choice(["textDocument/definition", "textDocument/definition", "textDocument/references",
+                               "textDocument/hover", "textDocument/implementation", "textDocument/documentHighlight"])
+            ops.append(gen.positional(rid(), meth, p, li, ch, rng=rng))
+
     def open_doc(p):
         ops.append(gen.did_open(p, disk[p]))
         docs[p] = model.lines_from_disk(disk[p].encode("utf-8"))
@@ -438,8 +475,20 @@ def gen_sched(g):
                 burst(p, 16)
             continue
         p = rng.choice(open_now)
+        if rng.random() < 0.08 and p in disk:
+            # another tool touches the file of an open (possibly unsaved) document and the client's
+            # file watcher reports it; the editor keeps its buffer
+            ops.append(gen.env_write(p, disk[p]))
+            ops.append(gen.note("workspace/didChangeWatchedFiles",
+                                {"changes": [{"uri": gen.uri(p), "type": rng.choice([1, 2, 2])}]}))
+            burst(p, 10)
+            continue
         if r < 0.55:
             ch = structural_edit(rng, docs[p])
+            if ch.get("range") and rng.random() < 0.6:
+                focus(p, ch["range"]["start"]["line"], ch["range"]["end"]["line"])  # before the edit
+                focus_after.append((p, ch["range"]["start"]["line"], ch["range"]["start"]["line"] +
+                                    ch.get("text", "").count("\n")))
             docs[p] = model.apply_change(docs[p], ch)
             changes = [ch]
             if rng.random() < 0.35:
@@ -497,6 +546,11 @@ def gen_sched(g):
                 docs[np_] = None  # the server could not read it: no text to compare ranges with
                 ops.append(gen.req(rid(), "textDocument/documentSymbol", {"textDocument": {"uri": gen.uri(np_)}}))
             p = np_
+        # the neighbourhood of the edit, asked again now that the text has changed
+        while focus_after:
+            fp, l0, l1 = focus_after.pop()
+            if docs.get(fp) is not None:
+                focus(fp, l0, l1)
         # burst on the touched document (if still there) and on one other
         if p in disk or docs.get(p) is not None:
             burst(p, 14)
